@@ -213,7 +213,11 @@ def _schema_extends(ctx, rng, root):
     w("b1.xml", "<schema keytype='identifier'><sectiontype name='t1'><key name='K1'/></sectiontype><key name='B1' default='one'/></schema>")
     w("b2.xml", "<schema keytype='identifier'><sectiontype name='t2' extends='t1'><key name='K2'/></sectiontype><key name='B2' default='two'/></schema>")
     w("b3.xml", "<schema datatype='zcvdt.wrap' keytype='identifier'><abstracttype name='ab'/><key name='B3'/></schema>")
-    combos = [(["b1.xml"], "<sectiontype name='t1'><key name='K1'/></sectiontype><key name='B1' default='one'/>"),
+    # a chain of three: the middle schema states neither keytype nor datatype and only inherits them from the bottom one
+    w("c0.xml", "<schema keytype='identifier' datatype='zcvdt.wrap'><sectiontype name='t1'><key name='K1'/></sectiontype><key name='B1' default='one'/></schema>")
+    w("c1.xml", "<schema extends='c0.xml'><key name='Mid' default='m'/></schema>")
+    combos = [(["c1.xml"], "<sectiontype name='t1'><key name='K1'/></sectiontype><key name='B1' default='one'/><key name='Mid' default='m'/>"),
+              (["b1.xml"], "<sectiontype name='t1'><key name='K1'/></sectiontype><key name='B1' default='one'/>"),
               (["b2.xml", "b1.xml"], "<sectiontype name='t1'><key name='K1'/></sectiontype><key name='B1' default='one'/>"
                "<sectiontype name='t2' extends='t1'><key name='K2'/></sectiontype><key name='B2' default='two'/>"),
               (["b1.xml", "b3.xml"], "<sectiontype name='t1'><key name='K1'/></sectiontype><key name='B1' default='one'/>"
@@ -222,7 +226,7 @@ def _schema_extends(ctx, rng, root):
         own = "<section type='t1' name='*' attribute='s1'/><key name='Own'/>"
         dt = " datatype='zcvdt.wrap'" if "b3.xml" in bases else ""
         comp = "<schema extends='%s'%s>%s</schema>" % (" ".join(bases), dt, own)
-        exp = "<schema keytype='identifier'%s>%s%s</schema>" % (dt, merged, own)
+        exp = "<schema keytype='identifier'%s>%s%s</schema>" % (dt or (" datatype='zcvdt.wrap'" if "c1.xml" in bases else ""), merged, own)
         w("top.xml", comp)
         elabrun.compare(ctx, "schema-extends", [comp, exp], base_dir=d, url="file://" + os.path.join(d, "top.xml"))
         ctx.evaluations += 1
@@ -235,7 +239,7 @@ def _schema_extends(ctx, rng, root):
             ctx.violate("schema-level extends or its merged form failed to load: %s: %s" % (type(e).__name__, e),
                         {"composed": comp, "expanded": exp}, signature="C11:schema-extends:load")
             continue
-        for t in ["", "B1 x\nOwn y\n<t1>\nK1 v\n</t1>\n", "b1 x\n", "B2 q\n", "<t2/>\n", "B3 z\n"]:
+        for t in ["", "B1 x\nOwn y\n<t1>\nK1 v\n</t1>\n", "b1 x\n", "B2 q\n", "<t2/>\n", "B3 z\n", "Mid q\nOwn r\n"]:
             ra, rb = _behaves(a, t), _behaves(b, t)
             ctx.evaluations += 1
             if ra != rb:
